@@ -153,6 +153,12 @@ static const char *REPNAME[4] = { "none", "normal", "pad", "reflect" }; /* index
 
 /* origins (src_x, src_y of the composite request = gradient coordinate of destination pixel 0,0) */
 static const int ORG[2][2] = { { 0, 0 }, { -3, 1 } };
+/* far origins: the same gradients drawn thousands of pixels (= thousands of periods) away from p1 / c1 */
+static const int ORG_FAR[6][2] = { { 128, 1 }, { 512, 1 }, { 2048, 1 }, { 8192, 1 }, { 16384, 1 }, { -8192, 1 } };
+/* far geometries: short periods */
+static const double FAR_LIN[4][6] = { { 3, 1, 3.5, 1 }, { 0.5, 0.5, 4.5, 0.5 }, { 1, 3, 6, 2.5 }, { 3.5, 1, 3, 1 } };
+static const double FAR_RAD[4][6] = { { 4, 2, 0, 4, 2, 0.5 }, { 2, 2, 1, 5, 2, 1 }, { 3, 2, 1, 4, 2, 2 }, { 4, 2, 0.25, 4.5, 2, 0.5 } };
+static const int TR_FAR[] = { 0 /*T_NONE*/, 1 /*T_SCALE2*/ };
 
 enum { K_LINEAR, K_RADIAL, K_CONICAL };
 static const char *KNAME[3] = { "linear", "radial", "conical" };
@@ -166,6 +172,7 @@ typedef struct {
     int repeat;             /* pixman_repeat_t */
     int tr;                 /* transform id */
     int ox, oy;
+    int far;                /* drawn from a far origin (separate spaces, separate key for periodic repeats) */
 } request;
 
 static void req_str(const request *q, char *buf, size_t sz)
@@ -217,6 +224,11 @@ static int req_draw(const request *q, uint32_t narrow[W * H], float wide[W * H *
     pixman_image_composite32(PIXMAN_OP_SRC, src, NULL, dw, q->ox, q->oy, 0, 0, 0, 0, W, H);
     vf_count_libcalls(2);
     pixman_image_unref(dn); pixman_image_unref(dw); pixman_image_unref(src);
+    if (vf_asan_flag) {   /* the engine would report key "asan"; give it the decoded case and a narrower key */
+        char rs[400], key[64]; req_str(q, rs, sizeof rs);
+        snprintf(key, sizeof key, "c13-asan-%s", KNAME[q->kind]);
+        vf_violation(key, "%s: AddressSanitizer reported %s while drawing", rs, vf_asan_desc);
+    }
     return 1;
 }
 
@@ -274,6 +286,7 @@ static void check_colour(const request *q)
     uint32_t narrow[W * H]; float wide[W * H * 4];
     char rs[400];
     if (!req_draw(q, narrow, wide)) { req_str(q, rs, sizeof rs); vf_violation("c13-create-failed", "image creation failed for %s", rs); return; }
+    if (vf_failed()) return;
 
     c13_grad g; g.n = q->nstops; g.repeat = q->repeat;
     for (int i = 0; i < q->nstops; i++) {
@@ -301,6 +314,13 @@ static void check_colour(const request *q)
                 char key[64], acc[900];
                 req_str(q, rs, sizeof rs); describe_accept(&a, acc, sizeof acc);
                 snprintf(key, sizeof key, "c13-%s-%s-%s", KNAME[q->kind], REPNAME[q->repeat], okn ? "wide" : "narrow");
+                if (q->far && (q->repeat == PIXMAN_REPEAT_NORMAL || q->repeat == PIXMAN_REPEAT_REFLECT)) {
+                    /* many periods away from the origin: one key for both pipelines and all geometries */
+                    snprintf(key, sizeof key, "c13-periodic-repeat-far-t-precision");
+#ifdef C13_PROBE
+                    snprintf(key, sizeof key, "far-%s-x%d-%s", KNAME[q->kind], q->ox, TNAME[q->tr]);
+#endif
+                }
                 if (!okn)
                     vf_violation(key, "%s: pixel (%d,%d) narrow a8r8g8b8 got %08x (a=%d r=%d g=%d b=%d, premultiplied), accepted: %s",
                                  rs, px, py, p, (int)gn[0], (int)gn[1], (int)gn[2], (int)gn[3], acc);
@@ -338,7 +358,7 @@ typedef struct {
     int ngeo;                    /* number of geometries */
     int ntr; const int *trs;
     int norg;
-    int safety;
+    int safety;                  /* 1: safety alphabets, 2: far alphabets */
     int dims[5];
 } cctx;
 
@@ -376,8 +396,14 @@ static void colour_case(uint64_t idx, void *vctx)
     const cctx *c = vctx;
     int d[5]; vf_decode(idx, c->dims, 5, d);     /* origin, transform, repeat, geometry, stop list */
     request q; memset(&q, 0, sizeof q);
-    set_geometry(&q, c->kind, d[3], 0);
-    q.ox = ORG[d[0]][0]; q.oy = ORG[d[0]][1];
+    if (c->safety == 2) {
+        q.kind = c->kind; q.far = 1;
+        memcpy(q.g, c->kind == K_LINEAR ? FAR_LIN[d[3]] : FAR_RAD[d[3]], sizeof q.g);
+        q.ox = ORG_FAR[d[0]][0]; q.oy = ORG_FAR[d[0]][1];
+    } else {
+        set_geometry(&q, c->kind, d[3], 0);
+        q.ox = ORG[d[0]][0]; q.oy = ORG[d[0]][1];
+    }
     q.tr = c->trs[d[1]];
     q.repeat = REPS[d[2]];
     const stoplist *L = &LISTS[d[4]];
@@ -409,7 +435,8 @@ static void safety_case(uint64_t idx, void *vctx)
     }
     uint32_t narrow[W * H]; float wide[W * H * 4];
     if (!req_draw(&q, narrow, wide)) { char rs[400]; req_str(&q, rs, sizeof rs); vf_violation("c13-create-failed", "image creation failed for %s", rs); return; }
-    /* oracle: we got here (no crash, no hang) and ASan is silent (checked by the engine after the case) */
+    if (vf_failed()) return;
+    /* oracle: we got here (no crash, no hang) and ASan was silent (checked in req_draw) */
     int distinct = 0; uint32_t seen[W * H];
     for (int i = 0; i < W * H; i++) { int j; for (j = 0; j < distinct; j++) if (seen[j] == narrow[i]) break; if (j == distinct) seen[distinct++] = narrow[i]; }
     vf_count_eval(1);
@@ -441,14 +468,38 @@ static void run_colour(const char *name, int kind, int nlists, int ngeo, int ntr
     cctx c = { kind, nlists, ngeo, ntr, trs, norg, 0, { norg, ntr, 4, ngeo, nlists } };
     vf_space_run(name, vf_product(c.dims, 5), colour_case, &c);
 }
+static void run_far(const char *name, int kind, int nlists)
+{
+    cctx c = { kind, nlists, 4, 2, TR_FAR, 6, 2, { 6, 2, 4, 4, nlists } };
+    vf_space_run(name, vf_product(c.dims, 5), colour_case, &c);
+}
 static void run_safety(const char *name, int kind, int ngeo, int ntr, const int *trs)
 {
     cctx c = { kind, N_SAFE_LISTS, ngeo, ntr, trs, 2, 1, { 2, ntr, 4, ngeo, N_SAFE_LISTS } };
     vf_space_run(name, vf_product(c.dims, 5), safety_case, &c);
 }
 
+/* ASan in recover mode reports every faulting PC only once per process (suppress_equal_pcs=1 by
+ * default), so the engine's confirmation re-execution of a case could never see the report again.
+ * Options are read before main(), hence: extend ASAN_OPTIONS and re-exec once. */
+static void ensure_asan_reports_repeat(char **argv)
+{
+#ifdef VF_ASAN
+    const char *o = getenv("ASAN_OPTIONS");
+    if (o && strstr(o, "suppress_equal_pcs=0")) return;
+    char buf[1024];
+    snprintf(buf, sizeof buf, "%s%ssuppress_equal_pcs=0", o ? o : "", o && *o ? ":" : "");
+    setenv("ASAN_OPTIONS", buf, 1);
+    execv("/proc/self/exe", argv);
+    perror("execv"); exit(2);
+#else
+    (void)argv;
+#endif
+}
+
 int main(int argc, char **argv)
 {
+    ensure_asan_reports_repeat(argv);
     vf_init(argc, argv, "C13", "exploration");
     build_lists();
     int th = vf_is_thorough();
@@ -480,6 +531,9 @@ int main(int argc, char **argv)
     run_safety("safety-radial", K_RADIAL, N_RGEO_ALL + 5, 9, TR_SAFETY);
     run_safety("safety-conical", K_CONICAL, N_CCEN * N_CANG_ALL + 4, 9, TR_SAFETY);
     vf_space_run("safety-zero-stops", 6, refuse_case, NULL);
+    /* colour claim many periods away from the gradient's origin (last: a genuine finding lives here) */
+    run_far("colour-far-linear", K_LINEAR, th ? NLISTS[3] : NLISTS[2]);
+    run_far("colour-far-radial", K_RADIAL, th ? NLISTS[3] : NLISTS[2]);
 
     vf_bounds = th ? "stop lists: all 1..4-stop lists with non-decreasing positions from {0,1/4,1/2,1/2,3/4,1} x 4 colours per stop; linear 12 ordered "
                      "point pairs + 4 extra (vertical, half-pixel span, long span, off-grid); radial 17 circle pairs (a<0, a>0, a=0, equal radii, zero "
